@@ -604,6 +604,10 @@ func (x *Exec) evalCall(env *SpecEnv, c *ast.CallExpr) specVal {
 				st = env.old
 			}
 			return specVal{term: x.strOfBytes(st, b.term), typ: tString}
+		case "G_arr":
+			// $arr(s): identity of the backing array of a slice
+			v := x.evalSpec(env, c.Args[0])
+			return specVal{term: fmt.Sprintf("(sl_arr %s)", v.term), typ: tInt}
 		case "G_isnil":
 			v := x.evalSpec(env, c.Args[0])
 			return specVal{term: eq(v.term, vc.zero(v.typ)), typ: tBool}
